@@ -234,10 +234,13 @@ func (H) Execute(scAny any, cfg simrt.Config, st *core.Stats) (*simrt.Outcome, *
 				}
 			case "rangemut":
 				// Range whose callback removes other pairs. The statement does not say
-				// what Range does with pairs that go away while it runs, so only what
-				// every reasonable Range (live or snapshot) satisfies is checked: a pair
-				// at most once, only pairs the bimap held when the call began, and every
-				// pair that stays for the whole call exactly once.
+				// what Range does with pairs that go away while it runs, and "every pair
+				// that stays is visited once, none twice" is what a Go map gives, not what
+				// every layout gives (a dense slice that removes by swapping the last pair
+				// into the hole skips it; open addressing with backward shifts may meet a
+				// pair again). What is checked: only pairs the bimap held when the call
+				// began are handed out, and afterwards the bimap is exactly what the
+				// removals leave.
 				start := map[int]int{}
 				for a, b := range m.fwd {
 					start[a] = b
@@ -247,9 +250,6 @@ func (H) Execute(scAny any, cfg simrt.Config, st *core.Stats) (*simrt.Outcome, *
 				bad := ""
 				m.bm.Range(func(rk, rv int) bool {
 					calls++
-					if seen[rk] {
-						bad = fmt.Sprintf("range-mismatch: Range with a removing callback visited key %d twice", rk)
-					}
 					seen[rk] = true
 					if want, ok := start[rk]; !ok || want != rv {
 						bad = fmt.Sprintf("range-mismatch: Range with a removing callback visited (%d,%d), which was not a pair when the call began: %v", rk, rv, start)
@@ -273,11 +273,6 @@ func (H) Execute(scAny any, cfg simrt.Config, st *core.Stats) (*simrt.Outcome, *
 					}
 					return true
 				})
-				for a := range m.fwd {
-					if bad == "" && !seen[a] {
-						bad = fmt.Sprintf("range-mismatch: Range with a removing callback never visited key %d, which stayed in the bimap for the whole call", a)
-					}
-				}
 				if bad != "" {
 					v = &core.Violation{Signature: "range-mismatch:rangemut", Detail: fmt.Sprintf("op %d %s: %s", i, o, bad)}
 					return
@@ -337,7 +332,7 @@ func verify(sc *Scenario, m *live) string {
 	for a := 0; a < sc.UK; a++ {
 		want, ok := m.fwd[a]
 		got, gok := m.bm.GetForward(a)
-		if gok != ok || got != want {
+		if gok != ok || (ok && got != want) {
 			return fmt.Sprintf("forward-mismatch: GetForward(%d)=(%d,%v) want (%d,%v); pairs %v", a, got, gok, want, ok, m.fwd)
 		}
 		if c := m.bm.ContainsForward(a); c != ok {
@@ -347,7 +342,7 @@ func verify(sc *Scenario, m *live) string {
 	for b := 100 * (sc.UV % 2); b < 100*(sc.UV%2)+sc.UV; b++ {
 		want, ok := m.rev[b]
 		got, gok := m.bm.GetReverse(b)
-		if gok != ok || got != want {
+		if gok != ok || (ok && got != want) {
 			return fmt.Sprintf("reverse-mismatch: GetReverse(%d)=(%d,%v) want (%d,%v); pairs %v", b, got, gok, want, ok, m.fwd)
 		}
 		if c := m.bm.ContainsReverse(b); c != ok {
